@@ -18,10 +18,15 @@ type Config struct {
 	Sync    bool
 	Initial int64  // -1: option not passed
 	Backend string // memdb | prefix | leveldb | prefixleveldb
+	Wrap    bool   // interpose the recording / counting / fault-injecting wrapper
 }
 
 func (c Config) String() string {
-	return fmt.Sprintf("cache=%d,fast=%v,flush=%d,sync=%v,backend=%s", c.Cache, c.Fast, c.Flush, c.Sync, c.Backend)
+	w := ""
+	if c.Wrap {
+		w = ",wrap=true"
+	}
+	return fmt.Sprintf("cache=%d,fast=%v,flush=%d,sync=%v,backend=%s%s", c.Cache, c.Fast, c.Flush, c.Sync, c.Backend, w)
 }
 
 func parseConfig(s string, initial int64) Config {
@@ -42,6 +47,8 @@ func parseConfig(s string, initial int64) Config {
 			c.Sync = kv[1] == "true"
 		case "backend":
 			c.Backend = kv[1]
+		case "wrap":
+			c.Wrap = kv[1] == "true"
 		}
 	}
 	return c
@@ -56,6 +63,8 @@ type Sys struct {
 	tree    *iavl.MutableTree
 	wrap    func(corestore.KVStoreWithBatch) corestore.KVStoreWithBatch
 	fastNow bool // fast setting of the current open (may be overridden per reopen)
+	hooks   *hooks
+	pending [][]string // successful uncommitted writes since the last clean point
 }
 
 func newSys(cfg Config) (*Sys, error) {
@@ -80,6 +89,10 @@ func newSys(cfg Config) (*Sys, error) {
 	s.db = s.base
 	if strings.HasPrefix(cfg.Backend, "prefix") {
 		s.db = dbm.NewPrefixDB(s.base, []byte{0x73, 0xff, 0x00}) // "s" 0xFF 0x00: awkward prefix on purpose
+	}
+	if cfg.Wrap {
+		s.hooks = &hooks{}
+		s.db = &wrapDB{inner: s.db, h: s.hooks}
 	}
 	return s, nil
 }
@@ -244,6 +257,25 @@ func (s *Sys) execRead(imm *iavl.ImmutableTree, toks []string) string {
 		return rBytes(s.tree.WorkingHash())
 	case "proof":
 		return s.execProof(imm, unhx(toks[1]))
+	case "gproof": // GetProof alone, verified with the value carried by the proof itself
+		it := imm
+		var root []byte
+		if it == nil {
+			it = s.tree.ImmutableTree
+			root = s.tree.WorkingHash()
+		} else {
+			root = it.Hash()
+		}
+		return gproof(it, root, unhx(toks[1]))
+	case "export":
+		if imm == nil {
+			return "ex-working"
+		}
+		nodes, err := exportAll(imm)
+		if err != nil {
+			return "err"
+		}
+		return exString(nodes)
 	case "touch": // read-only calls that are allowed to memoise but must not change any answer
 		it := imm
 		if it == nil {
@@ -260,8 +292,30 @@ func (s *Sys) execRead(imm *iavl.ImmutableTree, toks []string) string {
 	return "badread"
 }
 
-// Exec runs one m1 operation (tokens of an op line) and returns the canonical result term.
+// Exec runs one m1 operation and keeps track of the uncommitted writes.
 func (s *Sys) Exec(toks []string) string {
+	if toks[0] == "crash" {
+		return s.execCrash(toks[1:])
+	}
+	if toks[0] == "fault" {
+		return s.execFault(toks[1:])
+	}
+	res := s.exec1(toks)
+	switch toks[0] {
+	case "set", "rm":
+		if !strings.HasPrefix(res, "err") && !strings.HasPrefix(res, "panic") {
+			s.pending = append(s.pending, toks)
+		}
+	case "save", "rollback", "reopen", "reopenat", "load", "lvfo", "savecs":
+		if !strings.HasPrefix(res, "err") {
+			s.pending = nil
+		}
+	}
+	return res
+}
+
+// exec1 runs one m1 operation (tokens of an op line) and returns the canonical result term.
+func (s *Sys) exec1(toks []string) string {
 	return safely(func() string {
 		t := s.tree
 		switch toks[0] {
@@ -353,6 +407,16 @@ func (s *Sys) Exec(toks []string) string {
 			return rInt(t.WorkingVersion())
 		case "hash":
 			return rBytes(t.Hash())
+		case "changes":
+			return s.execChanges(atoi(toks[1]), atoi(toks[2]))
+		case "savecs":
+			v, err := t.SaveChangeSet(parsePairs(toks[1]))
+			if err != nil {
+				return "err"
+			}
+			return rInt(v)
+		case "replaycs":
+			return s.execReplay(len(toks) > 1 && toks[1] == "hash")
 		case "audit":
 			if toks[1] == "nodes" {
 				return s.auditNodes()
